@@ -404,7 +404,9 @@ func checkC03(c *vlib.Ctx) (string, string) {
 		"http://[::1]:80", "http://[::1]:", "http://[::1", "http://[0:0:0:0:0:0:0:1]", "http://[::0001]", "http://[::1%25eth0]", "http://[::ffff:1.2.3.4]", "http://1.2.3.4:8080", "http://01.2.3.4", "http://1.2.3", "http://[1.2.3.4]", "http://[a.b]", "https://[a.b]:443",
 		"ab://c", "ab://c:1", "a://c", "abc://c", "ab:c", "ab:/c", "ab:///c", "file://", "file:///x",
 		long(325), long(326), long(327), long(328), c01Scheme64 + "://" + c01Host253 + ".", c01Scheme64 + "://" + c01Host253 + ".:1", c01Scheme64 + "s://" + c01Host253 + ".:65535",
-		"https://" + strings.Repeat("a", 1<<20), strings.Repeat("https://a.b,", 1<<16), "https://a.b, https://a.b", "https://a.b,https://x.a.b", "*", "", "https://xn--a.b", "https://x_y.a.b", "https://b.a:8080", "https://b.a"}
+		"https://" + strings.Repeat("a", 1<<20), strings.Repeat("https://a.b,", 1<<16), "https://a.b, https://a.b", "https://a.b,https://x.a.b", "*", "", "https://xn--a.b", "https://x_y.a.b", "https://b.a:8080", "https://b.a",
+		// what the Config value of construction route 12 held before it was edited in place and resubmitted
+		"https://placeholder0.example", "https://placeholder1.example", "https://placeholder2.example", "https://placeholder3.example"}
 	recS := vlib.NewRec()
 	for _, v := range structured {
 		for _, r := range shapes(v) {
